@@ -9,6 +9,7 @@ CONSTANTS
   Secrets <- S12
   Questions <- Q01
   AllowEnd = FALSE
+  MaxRequery = 0
 INVARIANTS TypeOK InOrderNoDup AllDelivered SlotsSuffice SlotBound SMPSound SMPOutcome
 PROPERTIES BothEncrypted SMPFinishes
 CHECK_DEADLOCK FALSE
